@@ -11,7 +11,7 @@ use serde_json::{json, Map, Value};
 
 pub fn decode_outcome(b: &[u8], env: &TypeEnv, types: &[Type]) -> Value {
     let r = guard(|| { let mut cfg = candid::DecoderConfig::new(); cfg.set_decoding_quota(20_000_000); IDLArgs::from_bytes_with_types_with_config(b, env, types, &cfg) });
-    match r { Ok(Ok(a)) => json!({"ok": proj_args(&a)}), Ok(Err(e)) => json!({"err": 1, "msg": e.to_string().chars().take(120).collect::<String>()}), Err(s) => json!({"panic": s}) }
+    match r { Ok(Ok(a)) => json!({"ok": proj_args(&a)}), Ok(Err(e)) => json!({"err": 1, "msg": crate::util::errmsg(&e)}), Err(s) => json!({"panic": s}) }
 }
 fn input_json(inp: &Input, env: &TypeEnv, types: &[Type]) -> Value {
     match inp {
